@@ -15,6 +15,11 @@ CHECKS = {
          "Trusts numpy's nan-statistics and h5py; version shim (dclab._version pre-seeded) so written files re-open; mapped-basin feature objects expose no summary methods (counted as skipped).",
          "DESIGN.md §5 C20"),
 }
+CHECKS["C01"] = ("exploration",
+    "model-based history generation (Hypothesis) + in-memory reference model of the writer, read back through dclab and raw h5py",
+    "Generated writer programs: 1-4 writer sessions (append/replace/reset, own chunk-size configuration) of interleaved store_feature/store_log/store_table/store_metadata calls with events split arbitrarily over calls, every feature kind (scalar float/int, index, image, mask, contour, trace, float32 image, user-shaped temporary feature) and every documented single-event/list/array input form; the file is compared with an in-memory model through dclab (whole/int/slice/boolean access) and through raw h5py (values, dtypes, counts). Exploration, not proof.",
+    "Trusts h5py/numpy as independent reader; version shim; tables written once per name (second write raises by design); NUL characters excluded from log lines; integer features within the stored type's range.",
+    "DESIGN.md §5 C01")
 NOT_APPLICABLE = {}
 
 def main():
